@@ -3,7 +3,7 @@
 Functions under contract (all on the REAL bodies, read from the tree at run time):
   elfi/model/utils.py::distance_as_discrepancy            layout of X (column-stacked summaries) and Y (stacked observed),
                                                           one value per row, result[i] = dist(X, Y)[i, 0]
-  elfi/model/elfi_model.py::Distance.__init__             kwargs plumbing: exactly {p, w, V, VI} n kwargs go to the cdist partial
+  elfi/model/elfi_model.py::Distance.__init__             kwargs plumbing: exactly the keys of {p, w, V, VI} present in kwargs go to the cdist partial, the rest to Discrepancy; raise rule
   elfi/model/elfi_model.py::AdaptiveDistance.__init__ / init_state / init_adaptation_round / add_data / update_distance / nested_distance
 Ghost lemmas (lemmas/c12_lemmas.py::lemma_induction with the statements below): shifted linear sum, shifted second moment,
 weighted = scaled squared differences, extensionality of a finite sum (statement shared with C13).
@@ -502,8 +502,9 @@ class DistanceInit(Contract):
         s = NS()
         s.self = _node_stub(s, 'DistanceStub')
         s.summaries = tuple(object() for _ in range(self.nsum))
-        present = vc.fork_values('extra', [frozenset(k for i, k in enumerate(KEYS) if b >> i & 1) for b in range(16)])
-        other = vc.fork_values('elfi_kwargs', [{'name': 'd', 'model': object()}, {}])
+        subsets = [frozenset(k for i, k in enumerate(KEYS) if b >> i & 1) for b in range(16)]
+        present = vc.fork_values('extra', subsets if self.nsum else subsets[-1:])       # every subset of {p, w, V, VI}
+        other = vc.fork_values('elfi_kwargs', [{'name': 'd', 'model': object()}] + ([{}] if self.kind == 'callable' else []))
         s.values = {k: object() for k in KEYS}
         s.present, s.other = present, dict(other)
         s.kwargs = dict({k: s.values[k] for k in KEYS if k in present}, **other)
